@@ -714,10 +714,12 @@ def normalize(tree, relpath, digest=None):
             R["_names"] = known
         # "new" = absent from this module's reference; a method name known only in unrelated modules is no obstacle
         local_known = {q.rsplit(".", 1)[-1] for q in ref}
+        tree._relpath = relpath
         st = inline.inline_new_helpers(tree, ref, local_known)
         if st.get("inlined"):
             tree = _nf(tree)
             notes["inlined"] = st
+        inline._PURE_FUNCS = inline.pure_functions(tree)
         for qual, fn in functions(tree):
             r = ref.get(qual)
             if r and r.get("locals") is not None:
@@ -738,6 +740,63 @@ def normalize(tree, relpath, digest=None):
     tree._renamed = renamed
     tree._normal_notes = notes
     return tree
+
+
+def prepare_program(files):
+    """files: {relpath: source text} of the whole program about to be loaded.  Finds the functions that are new to the
+    program as a whole (N3 across modules and classes) before the modules are normalised one by one."""
+    import hashlib
+    from . import inline
+    R = reference()
+    inline.NEW_UNIQUE.clear()
+    inline._PROGRAM["files"] = files
+    inline._PROGRAM["stable"] = None
+    if not R.get("functions"):
+        return
+    changed = {}
+    for rel, text in files.items():
+        if text is None or text == "\0DELETED":
+            continue
+        if R.get("digests", {}).get(rel) == hashlib.sha256(text.encode("utf8", "replace")).hexdigest():
+            continue
+        try:
+            changed[rel] = _nf(ast.parse(text))
+        except (SyntaxError, RecursionError):
+            continue
+    if not changed:
+        return
+    known = R.get("_names")
+    if known is None:
+        known = set()
+        for m in R.get("functions", {}).values():
+            for q in m:
+                known.add(q.rsplit(".", 1)[-1])
+        R["_names"] = known
+    inline.prepare_program(changed, R.get("functions", {}), known)
+
+
+def finish_program(trees):
+    """trees: {relpath: normalised tree}.  A program-wide helper that was expanded somewhere and is called nowhere any more
+    is removed from its module (as N3 does within one module)."""
+    from . import inline
+    todo = inline.foreign_folded()
+    if not todo:
+        return
+    remaining = {}
+    for t in trees.values():
+        for n in ast.walk(t):
+            if isinstance(n, ast.Call):
+                f = n.func
+                nm = f.id if isinstance(f, ast.Name) else f.attr if isinstance(f, ast.Attribute) else None
+                if nm:
+                    remaining[nm] = remaining.get(nm, 0) + 1
+    for rel, cls, name in todo:
+        if remaining.get(name) or rel not in trees:
+            continue
+        t = trees[rel]
+        for holder in [t] + [n for n in t.body if isinstance(n, ast.ClassDef)]:
+            if (cls is None) == (holder is t) and (cls is None or holder.name == cls):
+                holder.body = [n for n in holder.body if not (isinstance(n, ast.FunctionDef) and n.name == name)] or [ast.Pass()]
 
 
 def build_reference(root):
